@@ -8,6 +8,8 @@ def check(ctx):
     check_cascade(ctx)
     check_fifo(ctx)
     check_draw_order(ctx)
+    from ..effects import check_no_process_wide_alias
+    check_no_process_wide_alias(ctx, "R8-no-shared-live-state", ("speckit/noise.py",))
     ctx.trust("L10 first-order direct form II transposed", "L16 scipy.signal.lfilter needs a non-empty input for a defined final state",
               "numpy.random.default_rng(seed) is a deterministic function of seed")
     ctx.assume("bit-for-bit equality of NumPy's Generator across block sizes is library behaviour (not analysed)",
